@@ -1,3 +1,4 @@
+import NgVerif.Proofs.Source
 import NgVerif.Proofs.Convert
 import NgVerif.Proofs.Conv
 import NgVerif.Proofs.CsegList
@@ -132,5 +133,13 @@ example : ∃ st, run (fun _ => .ok [7]) id (writeK (validFor [⟨"a", (2, 1, 1)
     (fun _ => .ok [7]) (fun _ => [7]) (fun _ _ => rfl) id (fun _ a => a)
     (fun _ b => some b) (fun _ _ => by simp) Store.empty
   exact ⟨st, h⟩
+
+/-- TRANSLATED SOURCE. The chunk boxes `convert_chunks_for_scale` computes, as they stand in /repo's source
+    (translated on every run), are the cells of the model's grid: `cs·i` and `min(cs·(i+1), size)` -/
+theorem source_conversion_boxes_are_the_model (s c i : Nat) :
+    Generated.Src.cvtLowerX (chunk_size_0 := c) (x_idx := i) = ((c * i : Nat) : Int) ∧
+    Generated.Src.cvtUpperX (chunk_size_0 := c) (x_idx := i) (size_0 := s) = ((min (c * (i + 1)) s : Nat) : Int) ∧
+    Generated.Src.cvtUpperZ (chunk_size_2 := c) (z_idx := i) (size_2 := s) = ((min (c * (i + 1)) s : Nat) : Int) :=
+  Source.cvtBounds_eq_model s c i
 
 end NgVerif.Props.C13
